@@ -409,63 +409,38 @@ fn boundary_geometry(x: u64) -> Result<(), String> {
                 ));
             }
         }
-        // cells reaching high latitudes may legitimately wrap around a pole: the window / planar tests do not apply
-        let maxlat = rn.iter().map(|p| p.latitude().abs()).fold(centre.latitude().abs(), f64::max);
-        if maxlat > 80.0 {
+        // orientation and centre containment on the sphere (valid at the poles too): every fan triangle
+        // (centre, v_i, v_i+1) of a counter-clockwise ring around an interior point has positive signed area
+        let cv = vec_of_lonlat(&centre);
+        let m = vn.len();
+        let mut total = 0.0;
+        let mut neg = 0usize;
+        for i in 0..m {
+            let e = tri_excess(cv, vn[i], vn[(i + 1) % m]);
+            total += e;
+            if e < 0.0 {
+                neg += 1;
+            }
+        }
+        if !(total > 0.0) {
+            return Err(format!("cell_to_boundary({}, segments={}) is not counter-clockwise (signed area {:e} sr around the reported centre)", hx(x), n, total));
+        }
+        if neg > 0 {
+            return Err(format!(
+                "cell_to_boundary({}, segments={}): reported centre ({}, {}) is not inside the ring ({} of {} edges seen clockwise from it)",
+                hx(x), n, centre.longitude(), centre.latitude(), neg, m
+            ));
+        }
+        // longitude window: unless the cell touches a pole (a pole within the cell's circumscribed circle)
+        let reach = vn.iter().map(|v| angle(cv, *v)).fold(0.0, f64::max);
+        let pole_dist = angle(cv, [0.0, 0.0, 1.0]).min(angle(cv, [0.0, 0.0, -1.0]));
+        if pole_dist <= reach * 1.000001 + 1e-12 {
             continue;
         }
         let lo = rn.iter().map(|p| p.longitude()).fold(f64::INFINITY, f64::min);
         let hi = rn.iter().map(|p| p.longitude()).fold(f64::NEG_INFINITY, f64::max);
         if hi - lo > 180.0 {
             return Err(format!("cell_to_boundary({}, segments={}): longitudes span {:.4} degrees ({} .. {})", hx(x), n, hi - lo, lo, hi));
-        }
-        // orientation: shoelace in the (unwrapped) lon/lat plane, east = x, north = y: counter-clockwise = positive
-        let m = rn.len();
-        let mut area2 = 0.0;
-        for i in 0..m {
-            let (p, q) = (&rn[i], &rn[(i + 1) % m]);
-            // relative to the first point: a resolution-29 cell is 1e-7 degrees across
-            let (px, py) = (p.longitude() - rn[0].longitude(), p.latitude() - rn[0].latitude());
-            let (qx, qy) = (q.longitude() - rn[0].longitude(), q.latitude() - rn[0].latitude());
-            area2 += px * qy - qx * py;
-        }
-        if !(area2 > 0.0) {
-            return Err(format!("cell_to_boundary({}, segments={}) is not counter-clockwise (signed area {})", hx(x), n, area2 / 2.0));
-        }
-        // centre inside (longitude of the centre taken in the ring's window)
-        let mut cl = centre.longitude();
-        while cl < lo - 180.0 {
-            cl += 360.0;
-        }
-        while cl > hi + 180.0 {
-            cl -= 360.0;
-        }
-        if cl < lo {
-            let alt = cl + 360.0;
-            if alt <= hi {
-                cl = alt;
-            }
-        }
-        if cl > hi {
-            let alt = cl - 360.0;
-            if alt >= lo {
-                cl = alt;
-            }
-        }
-        let cy = centre.latitude();
-        let mut inside = false;
-        for i in 0..m {
-            let (p, q) = (&rn[i], &rn[(i + 1) % m]);
-            let (x1, y1, x2, y2) = (p.longitude(), p.latitude(), q.longitude(), q.latitude());
-            if (y1 > cy) != (y2 > cy) {
-                let xi = x1 + (cy - y1) / (y2 - y1) * (x2 - x1);
-                if cl < xi {
-                    inside = !inside;
-                }
-            }
-        }
-        if !inside {
-            return Err(format!("cell_to_boundary({}, segments={}): reported centre ({}, {}) is outside the ring", hx(x), n, centre.longitude(), centre.latitude()));
         }
     }
     Ok(())
@@ -603,7 +578,7 @@ pub fn generate_geo(op: &str, rng: &mut crate::ops::Rng, budget: u64, f: &mut dy
         }
         "boundary_geometry" => {
             let lons = [87.0, 86.95, 87.05, 87.3, 86.7, 88.0, 86.0, -93.0, -92.9, 0.0, 180.0, -180.0, 179.95, -179.95, 45.0, -21.0, 123.456];
-            let lats = [0.5, 23.0, 27.99, 45.0, -30.0, 60.0, -60.0, 75.0, -0.5, 10.0];
+            let lats = [0.5, 23.0, 27.99, 45.0, -30.0, 60.0, -60.0, 75.0, -0.5, 10.0, 85.0, -88.0, 89.5, -89.9, 89.99, 89.9999, -89.99999, 90.0, -90.0];
             for r in [0, 1, 2, 3, 5, 8, 12, 20, 29] {
                 for lon in lons {
                     for lat in lats {
@@ -630,7 +605,13 @@ pub fn generate_geo(op: &str, rng: &mut crate::ops::Rng, budget: u64, f: &mut dy
             }
             for _ in 0..budget {
                 let lon = (rng.below(3_600_000) as f64) / 10_000.0 - 180.0;
-                let lat = (rng.below(1_700_001) as f64) / 10_000.0 - 85.0;
+                let lat = if rng.below(8) == 0 {
+                    // polar caps: up to 1e-5 degrees from a pole
+                    let d = 10f64.powf(-(rng.below(6000) as f64) / 1000.0 + 1.0);
+                    if rng.below(2) == 0 { 90.0 - d.min(10.0) } else { -90.0 + d.min(10.0) }
+                } else {
+                    (rng.below(1_700_001) as f64) / 10_000.0 - 85.0
+                };
                 let r = rng.below(30) as i32;
                 if let Some(c) = cell_at(lon, lat, r) {
                     if !f(vec![hx(c)]) {
